@@ -25,7 +25,9 @@ RULE = ("the product structure x leaf kinds x 12 dtypes x shapes (scalar, zero-l
         "each other, keys that need escaping, RNGState first / last, replication globs, batching on/off, restore targets "
         "same / empty / other structure, key subsets): global manifest, prepare_write arguments, what every load_state_dict "
         "received, the in-place target of every prepare_read, read_object of every manifest path. Non-trivial = state holds a "
-        "tensor with > 0 elements (every glue case counts); distinct by (state spec, knobs, target mode, key subset).")
+        "tensor with > 0 elements (every glue case counts); distinct by (state spec, knobs, target mode, key subset). "
+        "sequences:public-API-operation-sequences (props/seq_common.py: random sequences of take / restore / read_object ... "
+        "operations through the public API in one process, 14 operations each).")
 TRUSTED = [
     "Coq 8.16.1 kernel and vm_compute; theorems closed under the global context",
     "the end-to-end statement is a composition: containers (C15), metadata (C14), tensor bits (C17), planning (C16), "
@@ -635,7 +637,7 @@ GLUE_CORPUS = [
 def check_glue(ctx, res, cases=None):
     """the generated take / restore / read_object glue (model/GlueGenObs.v over gen/GlueGen.v) against the real Snapshot API"""
     rng = ctx.rng
-    cases = cases if cases is not None else GLUE_CORPUS + [gen_glue_case(rng) for _ in range(ctx.n(30, 400))]
+    cases = cases if cases is not None else GLUE_CORPUS + [gen_glue_case(rng) for _ in range(ctx.n(30, 250))]
     t_cases, r_cases, o_cases, t_meta, r_meta, o_meta = [], [], [], [], [], []
     for case in cases:
         tin, obs = run_glue_case(ctx, case, res)
@@ -664,6 +666,23 @@ def check_glue(ctx, res, cases=None):
         res.traces_validated += len(cs)
 
 
+def check_sequences(ctx, res):
+    """operation sequences through the public API in one process (props/seq_common.py)"""
+    from props import seq_common as sq
+    from props.C08 import C08Group
+    counts = {}
+    with C08Group(ctx):
+        for i in range(ctx.n(10, 60)):
+            seed = ctx.rng.randrange(1 << 30)
+            fails = []
+            sq.run_sequence(ctx, seed, 14, fails, counts)
+            res.case({"sequence_seed": seed, "ops": 14}, nontrivial=True)
+            for sig, what in fails:
+                res.failures.append(Failure("C01:" + sig, what, {"sequence_seed": seed, "ops": 14}))
+    for k, v in counts.items():
+        res.count("sequence.op", f"{k}={v}")
+
+
 def correspond(ctx: Ctx) -> Result:
     res = Result(rule=RULE)
     rng = ctx.rng
@@ -674,6 +693,7 @@ def correspond(ctx: Ctx) -> Result:
                                        "the generated models do not build: " + coqrun.error_excerpt(out, 8)))
     check_pieces(ctx, res)
     check_routing(ctx, res)
+    check_sequences(ctx, res)
     check_glue(ctx, res)
     # corpus: the cases that used to fail (fixed) must keep passing
     corpus = [
@@ -734,6 +754,13 @@ def replay(ctx: Ctx, data):
     if data.get("quantized"):
         r = Result(); quantized_inplace(ctx, r)
         return r.failures[0] if r.failures else None
+    if "sequence_seed" in data:
+        from props import seq_common as sq
+        from props.C08 import C08Group
+        fails = []
+        with C08Group(ctx):
+            sq.run_sequence(ctx, data["sequence_seed"], data["ops"], fails, {})
+        return Failure("C01:" + fails[0][0], fails[0][1], data) if fails else None
     if "glue" in data:
         r = Result()
 
